@@ -93,6 +93,11 @@ def obligations(tier: str):
         add(f"tree_{dec}_f9_create", fixture="f9", rep="tree", decider=dec, max_depth=3 if not T else 4)
     for rep in ("ge", "sge", "dsge"):
         add(f"{rep}_f3n_create", fixture="f3n", rep=rep, decider="grow", max_depth=3 if rep != "dsge" else 4, gene_length=6 if rep == "ge" else 2)
+    for v in ("UI", "LL", "ND", "TL"):
+        add(f"tree_grow_f14_{v}_create", fixture="f14", grammar_fn="g_" + v, rep="tree", decider="grow", max_depth=2)
+        add(f"ge_f14_{v}_create", fixture="f14", grammar_fn="g_" + v, rep="ge", decider="grow", max_depth=2, gene_length=5)
+    add("dsge_f14_create", fixture="f14", rep="dsge", max_depth=3)
+    add("sge_f14_create", fixture="f14", rep="sge", decider="grow", max_depth=2, gene_length=2)
     add("tree_grow_f5_RV_refined_tuple_create", fixture="f5", grammar_fn="g_RV", rep="tree", decider="grow", max_depth=2)
     add("ge_f5_RV_refined_tuple_create", fixture="f5", grammar_fn="g_RV", rep="ge", decider="grow", max_depth=2, gene_length=4)
     add("tree_grow_f11_concrete_start_crossover", fixture="f11", rep="tree", decider="grow", max_depth=3, ops=["crossover"])
